@@ -760,6 +760,10 @@ type xfMemFS struct {
 	tap   *xfFrameTap
 	// the latest open the handlers saw: which method was called and the flags the request showed it
 	lastOpen xfMemOpen
+	// fault: the backend behind the handlers breaks at a byte offset of the served file (see xfHFault, xfer_fault.go)
+	fault    *xfHFault
+	faultErr error
+	faultHit int // ReadAt/WriteAt calls that met the fault
 }
 
 // xfMemOpen is what a handler saw of an OPEN request.
@@ -841,6 +845,15 @@ func (h *xfMemHandle) ReadAt(b []byte, off int64) (int, error) {
 	if off < 0 {
 		return 0, os.ErrInvalid
 	}
+	if ft := h.m.fault; ft != nil && ft.Op == "read" && len(b) > 0 && off+int64(len(b)) > ft.At {
+		// the backend delivers nothing at or beyond At: the bytes below it (Partial) or nothing, and the error
+		h.m.faultHit++
+		n := 0
+		if (ft.Partial || h.m.faultErr == io.EOF) && off < ft.At && off < int64(len(f)) {
+			n = copy(b[:ft.At-off], f[off:])
+		}
+		return n, h.m.faultErr
+	}
 	if off >= int64(len(f)) {
 		return 0, io.EOF
 	}
@@ -859,6 +872,17 @@ func (h *xfMemHandle) WriteAt(b []byte, off int64) (int, error) {
 	}
 	if h.m.limit > 0 && len(b) > 0 && off+int64(len(b)) > h.m.limit {
 		return 0, xfErrQuota
+	}
+	if ft := h.m.fault; ft != nil && ft.Op == "write" && len(b) > 0 && off+int64(len(b)) > ft.At {
+		// the backend stores nothing at or beyond At: the bytes below it (Partial: (n > 0, err)) or nothing, and the error
+		h.m.faultHit++
+		n := 0
+		if ft.Partial && off < ft.At {
+			n = int(ft.At - off)
+			h.m.applied = append(h.m.applied, xfChunk{off, n})
+			h.m.files[h.path] = xfOverwrite(h.m.files[h.path], off, b[:n])
+		}
+		return n, h.m.faultErr
 	}
 	if len(b) > 0 {
 		h.m.applied = append(h.m.applied, xfChunk{off, len(b)})
